@@ -392,6 +392,26 @@ STYLE_ABBRS = ['m10', 'p10-20', 'bd1-s#fc0', 'bd', 'c', 'bg', 'f', 'trs', 'anim'
                'gtx', 'bgi', 'bgp', 'olc', 'animdur', 'trf-scale(1.5)', 'mt10+mr-10+mb10p+ml1.5r', 'zom+op+fw+lh']
 
 
+def counted_call(rng, spec, op, explicit=None):
+    "Fills op['abbr'] / op['c13'] from the generators that keep the explicit tree (count model, explicit fields)"
+    global BOOLEANS, INDENT_FORMATTER, BEM_ON, WRAP_ON
+    WRAP_ON = spec.get('text') is not None
+    BOOLEANS = tuple(spec['options'].get('output.booleanAttributes') or ())
+    INDENT_FORMATTER = spec.get('syntax') in INDENT_SYNTAXES
+    BEM_ON = bool(spec['options'].get('bem.enabled'))
+    if (maybe(rng, 0.5) if explicit is None else not explicit):
+        op['abbr'], op['c13'] = gen_markup_counted(rng, spec.get('text'))
+    else:
+        op['abbr'], op['c13'] = gen_markup_explicit(rng, spec.get('text'), spec.get('snippets'))
+    op['c13']['bem'] = BEM_ON
+    op['c13']['snippets'] = sorted(spec.get('snippets') or {})
+    BEM_ON = False
+    op['c13']['booleans'] = list(BOOLEANS)
+    op['c13']['formatter'] = 'indent' if INDENT_FORMATTER else 'html'
+    BOOLEANS = ()
+    INDENT_FORMATTER = False
+
+
 def gen_c13(run_seed):
     rng = random.Random(run_seed)
     world = {'configs': {}, 'caches': [], 'globals': {}}
@@ -413,6 +433,11 @@ def gen_c13(run_seed):
                 opts['output.format'] = pick(rng, [True, False])
             if maybe(rng, 0.3):
                 opts['stylesheet.between'] = pick(rng, [': ', ':', ' '])
+            if maybe(rng, 0.12):
+                # separators that carry a line break of their own
+                opts['stylesheet.between'] = pick(rng, [':\n\t', ' :\n', ':\n\n'])
+            if maybe(rng, 0.12):
+                opts['stylesheet.after'] = pick(rng, [';\n', '\n;', '', ' ;', ';\n\n'])
             if maybe(rng, 0.2):
                 opts['stylesheet.json'] = True
             if maybe(rng, 0.3):
@@ -483,22 +508,7 @@ def gen_c13(run_seed):
                                                  'text': bool(spec.get('text')), 'user_snippets': sorted(spec.get('snippets') or {})})
             op['c13'] = {'mode': 'positions'}
         else:
-            global BOOLEANS, INDENT_FORMATTER, BEM_ON, WRAP_ON
-            WRAP_ON = spec.get('text') is not None
-            BOOLEANS = tuple(spec['options'].get('output.booleanAttributes') or ())
-            INDENT_FORMATTER = spec.get('syntax') in INDENT_SYNTAXES
-            BEM_ON = bool(spec['options'].get('bem.enabled'))
-            if maybe(rng, 0.5):
-                op['abbr'], op['c13'] = gen_markup_counted(rng, spec.get('text'))
-            else:
-                op['abbr'], op['c13'] = gen_markup_explicit(rng, spec.get('text'), spec.get('snippets'))
-            op['c13']['bem'] = BEM_ON
-            op['c13']['snippets'] = sorted(spec.get('snippets') or {})
-            BEM_ON = False
-            op['c13']['booleans'] = list(BOOLEANS)
-            op['c13']['formatter'] = 'indent' if INDENT_FORMATTER else 'html'
-            BOOLEANS = ()
-            INDENT_FORMATTER = False
+            counted_call(rng, spec, op)
         if maybe(rng, fault_rate):
             k = pick(rng, ['F3', 'F3', 'F5', 'F1'])
             if k == 'F3':
@@ -513,3 +523,75 @@ def gen_c13(run_seed):
                 op['c13'] = {'mode': 'positions'}
         ops.append(op)
     return {'world': world, 'ops': ops, 'meta': {'family': family}}
+
+
+# ---------------------------------------------------------------------------
+# deterministic part of every C13 batch: a grid over (syntax, newline string, baseIndent, indent)
+
+GRID_SYNTAXES = [('markup', s) for s in ('html', 'xml', 'xsl', 'jsx', 'js', 'vue', 'svelte', 'xhtml', 'myml', 'pug', 'slim', 'haml')] + \
+                [('stylesheet', s) for s in STYLE_SYNTAXES]
+GRID_NEWLINES = ['\n', '\r\n', '\r', '\n\n', ' \n', '\u2028', '\r\n\t\r\n']
+GRID_BASE = ['', '  ', '\t', '      ']
+GRID_INDENT = ['\t', '  ', '']
+GRID_MARKUP_FIXED = ['div>p{a\nb}+span', 'ul>li*2>a[href]{x ${1:y}}', 'p{l1\r\nl2\nl3}+q[cite]', 'table>tr*2>td[title]*2', 'div#a.b>p.c>em',
+                     '!', 'div>{${1:one}\n${2:two}}+img', 'p{é ü 😀}+br+a[title="t 😀"]', 'ul>li{item $}*3', 'section>p+p^^aside', 'input[disabled.]+textarea',
+                     'div{  pad  \n  in  }>span']
+GRID_STYLE_FIXED = ['m10+p20', '@kf', '@m', 'rawb', 'bd1-s#fc0', 'lg(to right, #0, #f00.5)', 'gtx', 'p!+rawa', 'c#f+op.5+z10', '@ff', 'bd+bg', 'kpad+foo']
+GRID_CELLS = [(t, s, nl, b, ind) for (t, s) in GRID_SYNTAXES for nl in GRID_NEWLINES for b in GRID_BASE for ind in GRID_INDENT]
+GRID_SIZE = len(GRID_CELLS)
+
+
+def gen_c13_grid(i):
+    """Cell i of the grid: one config (its peer style, holder and format options cycle with the index), a history of
+    four fixed abbreviations in `positions` mode and, for markup, four abbreviations from the tree-keeping generators
+    (count model / explicit fields) drawn from a generator seeded by the cell index alone."""
+    t, syn, nl, base, ind = GRID_CELLS[i]
+    rng = random.Random(1000003 * i + 17)
+    spec = {'id': 'c0', 'holder': 'Config' if i % 3 == 2 else 'dict', 'syntax': syn}
+    opts = {'output.newline': nl, 'output.baseIndent': base, 'output.indent': ind}
+    ops = []
+    if t == 'stylesheet':
+        spec['type'] = t
+        spec['snippets'] = {k: ga.STYLESHEET_USER_SNIPPETS[k] for k in ('rawa', 'rawb', 'kpad', 'gtx')}
+        if i % 4 == 1:
+            opts['stylesheet.json'] = True
+        if i % 5 == 2:
+            opts['output.format'] = False
+        if i % 7 == 3:
+            opts['stylesheet.between'] = ':'
+            opts['stylesheet.after'] = ''
+        if i % 7 == 5:
+            opts['stylesheet.between'] = ':\n\t'
+        if i % 7 == 6:
+            opts['stylesheet.after'] = (';\n', '\n;')[(i // 7) % 2]
+        fixed = GRID_STYLE_FIXED
+    else:
+        if i % 4 == 1:
+            opts['comment.enabled'] = True
+        if i % 5 == 2:
+            opts['output.format'] = False
+        if i % 7 == 3:
+            opts['output.formatLeafNode'] = True
+        if i % 6 == 4:
+            opts['output.selfClosingStyle'] = ('xhtml', 'xml')[(i // 6) % 2]
+        if i % 9 == 5:
+            opts['output.inlineBreak'] = (i // 9) % 3
+        if i % 8 == 6:
+            spec['snippets'] = {k: v[0] for k, v in SNIPPET_FIELDS.items()}
+        fixed = GRID_MARKUP_FIXED
+    spec['options'] = opts
+    spec['peer'] = {'seed': 7 * i + 1, 'style': PEER_STYLES[i % len(PEER_STYLES)]}
+    for j in range(4):
+        ops.append({'op': 'call', 'cfg': 'c0', 'pin': j, 'abbr': fixed[(i + 5 * j) % len(fixed)], 'c13': {'mode': 'positions'}})
+    if t == 'markup':
+        for j in range(4):
+            op = {'op': 'call', 'cfg': 'c0', 'pin': 10 + j}
+            counted_call(rng, spec, op, explicit=bool(j % 2))
+            ops.append(op)
+    return {'world': {'configs': {'c0': spec}, 'caches': [], 'globals': {}}, 'ops': ops, 'meta': {'grid': [t, syn, nl, base, ind]}}
+
+
+def gen_c13_indexed(run_seed, index, tier=None):
+    if index < GRID_SIZE:
+        return gen_c13_grid(index)
+    return gen_c13(run_seed)
